@@ -3,7 +3,10 @@ package main
 import (
 	"encoding/json"
 	"fmt"
+	"os"
+	"os/exec"
 	"strings"
+	"sync"
 	"time"
 	"unicode/utf8"
 
@@ -309,7 +312,76 @@ func extraC20(col *Collector, r *RNG, tier string) {
 	runCases(col, theDriver, cs)
 }
 
+// coldStartC20: the very first marshalling in this process is done by many goroutines at once (a service that starts
+// several streamers): what each of them gets must be what the same call gives later, once any lazily built table has
+// settled - and that later output is checked by the ordinary cases.
+func coldStartC20(col *Collector) {
+	mk := func() *gobinlog.Transaction {
+		t := &gobinlog.Transaction{NowPosition: gobinlog.Position{Filename: "bin.000001", Offset: 4}, NextPosition: gobinlog.Position{Filename: "bin.000001", Offset: 400}}
+		ev := &gobinlog.StreamEvent{Type: gobinlog.StatementInsert, Table: gobinlog.NewMysqlTableName("d", "t")}
+		rd := &gobinlog.RowData{}
+		for typ := 0; typ < 256; typ++ {
+			rd.Columns = append(rd.Columns, &gobinlog.ColumnData{Filed: fmt.Sprintf("c%d", typ), Type: gobinlog.ColumnType(typ), Data: []byte("1")})
+		}
+		ev.RowValues = []*gobinlog.RowData{rd}
+		t.Events = []*gobinlog.StreamEvent{ev}
+		return t
+	}
+	const n = 64
+	outs := make([]string, n)
+	start := make(chan struct{})
+	var wg sync.WaitGroup
+	for i := 0; i < n; i++ {
+		wg.Add(1)
+		go func(i int) {
+			defer wg.Done()
+			defer func() { recover() }()
+			t := mk()
+			<-start
+			b, err := json.Marshal(t)
+			if err != nil {
+				outs[i] = "err:" + err.Error()
+				return
+			}
+			outs[i] = string(b)
+		}(i)
+	}
+	close(start)
+	wg.Wait()
+	later, _ := json.Marshal(mk())
+	ok, note := true, ""
+	for i, o := range outs {
+		if o != string(later) {
+			ok = false
+			k := 0
+			for k < len(o) && k < len(later) && o[k] == later[k] {
+				k++
+			}
+			lo := k - 40
+			if lo < 0 {
+				lo = 0
+			}
+			note = fmt.Sprintf("the first marshalling in the process, done by %d goroutines at once: goroutine %d got …%s… where the same call later gives …%s…", n, i, clip(o[lo:], 100), clip(string(later)[lo:], 100))
+			break
+		}
+	}
+	// the window is short: repeat the first use in fresh processes (this binary with -coldonly) when this one saw nothing
+	if ok && os.Getenv("VERIF_COLD_CHILD") == "" {
+		k := 60
+		for i := 0; i < k && ok; i++ {
+			cmd := exec.Command(os.Args[0], "-coldonly", "C20")
+			cmd.Env = append(os.Environ(), "VERIF_COLD_CHILD=1")
+			out, err := cmd.Output()
+			if err == nil && strings.HasPrefix(string(out), "COLD-FAIL ") {
+				ok = false
+				note = strings.TrimSpace(strings.TrimPrefix(string(out), "COLD-FAIL ")) + fmt.Sprintf(" (fresh process %d of %d)", i+1, k)
+			}
+		}
+	}
+	col.AddScenario("cold-start-concurrent-marshal", fmt.Sprintf("%d goroutines marshal a transaction with one column of every type code as the first use of the library in the process", n), true, ok, true, note, "first-use-differs", "", "")
+}
+
 func init() {
-	register(&Property{ID: "C20", Gen: genC20, Extra: extraC20,
+	register(&Property{ID: "C20", Cold: coldStartC20, Gen: genC20, Extra: extraC20,
 		Rule: "json.Marshal of (a) synthetic transactions with arbitrary bytes in names, SQL and data (control characters, quotes, <>&, invalid / truncated / overlong UTF-8, surrogates, U+2028/9, empty vs nil slices, nil vs empty event lists, negative offsets) and (b) the transactions delivered end to end for C01-style histories; compared byte for byte with the Lean model of the marshalers (timestamps passed through) and parsed back with encoding/json to check the structure the property lists; the string escaper on every single byte and random strings. Non-trivial: at least one event"})
 }
